@@ -150,7 +150,7 @@ func runC35(ctx *ev.Ctx, c c35Case) {
 	if c.N < 4 {
 		c.N = 4
 	}
-	e := newEng(ctx, c.N, 0)
+	e := newEng(ctx, c.N, 0, 0)
 	cons, _, n := e.pool().consensus()
 	thr := ceil2of3(n)
 	chains := map[uint64]*c35Chain{}
